@@ -78,7 +78,7 @@ Footprint == [
   c15route   |-> {"bypass", "revproxy", "errmode"},
   c15net     |-> {"bypass", "revproxy", "errmode"},
   forwarding |-> {"revproxy", "errmode", "redirecturi", "bypass", "cookieattrs", "store"},   \* store: the two requests of a pair share one session; a sign-out that removes a stored session is not repeatable
-  route      |-> {"upstreamhdr", "semicolons"},
+  route      |-> {"upstreamhdr"},
   c18        |-> {"cookieattrs", "store", "cookiename", "csrf", "refresh", "redirecturi"},
   shapes     |-> {},
   lifecycle  |-> {"store", "refresh", "htpasswd", "emailrule", "errmode", "bearer", "cookiename"}
